@@ -408,6 +408,13 @@ func (l *listener) Accept() (transport.Pipe, error) {
 
 func (l *listener) handler(ws *websocket.Conn, req *http.Request) {
 	l.lock.Lock()
+	if l.closed {
+		// Close has swept the pending list already: nobody would
+		// accept or close this connection, and we would wait for ever.
+		l.lock.Unlock()
+		_ = ws.Close()
+		return
+	}
 
 	w := &wsPipe{
 		ws:      ws,
